@@ -49,6 +49,18 @@ func main() {
 		search(a)
 	case "script":
 		runScript(a["file"])
+	case "keys":
+		// print the balkey lines for a comma separated list of addresses (for hand-written corpus files)
+		adb := dummyWorld()
+		pos := uint64(3)
+		if common.IsSub() {
+			pos = 4
+		}
+		for _, h := range strings.Split(a["addrs"], ",") {
+			if x, ok := addrOf(h); ok {
+				fmt.Printf("balkey %s %s\n", h, hx.Hex(adb.GetERC20Key(x, pos)))
+			}
+		}
 	default:
 		corr(a)
 	}
